@@ -1,0 +1,45 @@
+//go:build verif
+
+package event
+
+// Contracts for runtime/event (property C15: trigger counting and linking), read by the verification
+// machinery in /verif. Comment-only file.
+//
+// Trigger counting: every Trigger of an event (and every call of a hook) passes through
+// currentTriggerExceedsMaxTriggerCount exactly once; that function counts the trigger and decides in ONE atomic
+// step (atomic Add), so that with a limit n the k-th trigger fires iff k <= n, whatever the interleaving:
+// exactly min(n, number of triggers) fire.
+// Linking: linkTo replaces the link inside one critical section of linkMutex (unhook the old target, hook the
+// new one, store the hook), so that two concurrent LinkTo calls cannot leave the event hooked to two targets.
+
+/*@
+type event
+  monitor linkMutex level 6 guards link
+
+func triggerSettings.WasTriggered
+  requires t != nil
+  ensures r0 <==> aload(t.triggerCount) > 0
+
+func triggerSettings.MaxTriggerCountReached
+  requires t != nil
+  ensures r0 <==> (t.maxTriggerCount != 0 && aload(t.triggerCount) > t.maxTriggerCount)
+
+func triggerSettings.currentTriggerExceedsMaxTriggerCount
+  requires t != nil
+  opt assume-no-overflow              -- fewer than 2^64 triggers
+  modifies atomic(t.triggerCount)
+  ensures aload(t.triggerCount) == old(aload(t.triggerCount)) + 1
+  ensures r0 <==> (t.maxTriggerCount != 0 && old(aload(t.triggerCount)) + 1 > t.maxTriggerCount)
+
+func Hook.Unhook
+  instantiate TriggerFunc: func()
+  requires h != nil && h.event != nil && h.event.hooks != nil
+  modifies everything
+
+func event.linkTo
+  instantiate TriggerFunc: func()
+  opt twophase
+  requires e != nil && unlocked(e.linkMutex)
+  modifies everything
+  ensures unlocked(e.linkMutex)
+@*/
